@@ -152,6 +152,8 @@ pub struct Cfg {
     pub n_condvars: usize,
     pub n_notifies: usize,
     pub n_chans: usize,
+    /// checkpoint file name (inside the directory given by `--ckpt-dir`)
+    pub ckpt: Option<String>,
 }
 
 impl Default for Cfg {
@@ -171,6 +173,7 @@ impl Default for Cfg {
             n_condvars: 0,
             n_notifies: 0,
             n_chans: 0,
+            ckpt: None,
         }
     }
 }
@@ -331,6 +334,7 @@ fn parse_cfg(s: &str) -> Option<Cfg> {
             "v" => c.n_condvars = n(v)?,
             "n" => c.n_notifies = n(v)?,
             "q" => c.n_chans = n(v)?,
+            "ckpt" => c.ckpt = Some(v.to_string()),
             _ => return None,
         }
     }
